@@ -98,6 +98,13 @@ def fit(ml, spec, init, max_iter, max_proj=10000):
   return ml.MMC_Supervised(n_constraints=spec['n_constraints'], **kw).fit(spec['X'].copy(), spec['labels'].copy())
 
 
+def fit_marked(ml, spec, init, max_iter, inp, max_proj=10000):
+  try:
+    return fit(ml, spec, init, max_iter, max_proj)
+  except Exception as e:
+    raise FitRaised(inp) from e
+
+
 def describe(spec):
   return '%s d=%d init=%s diagonal=%s max_iter=%d tol=%g #%d' % (spec['cls'], spec['d'], spec['init'], spec['diagonal'],
                                                                   spec['max_iter'], spec['tol'], spec['index'])
@@ -135,6 +142,8 @@ def check(spec):
           est = fit(ml, spec, init, spec['max_iter'])
         except ValueError:
           return 'diagonal: ValueError', None
+        except Exception as e:
+          raise FitRaised(inp) from e
         M = est.get_mahalanobis_matrix()
         if np.isnan(M).any():
           return 'diagonal: returned', bad('diagonal-no-nan', 'M = %r' % (M.tolist(),))
@@ -153,17 +162,17 @@ def check(spec):
       if not t > 0:
         return 'outside quantifier: zero budget', None
       max_proj = 10000
-      M1 = fit(ml, spec, init, 1).get_mahalanobis_matrix()
+      M1 = fit_marked(ml, spec, init, 1, inp).get_mahalanobis_matrix()
       unmoved = lambda M: np.allclose(M, A0, rtol=1e-9, atol=1e-12 * np.abs(A0).max())
       if unmoved(M1) and spec['max_iter'] <= 10:
         max_proj = BIG_MAX_PROJ      # the default was not large enough for this instance: give it more
         inp['max_proj'] = max_proj
-        M1 = fit(ml, spec, init, 1, max_proj).get_mahalanobis_matrix()
+        M1 = fit_marked(ml, spec, init, 1, inp, max_proj).get_mahalanobis_matrix()
       if unmoved(M1):
         return 'outside quantifier: first projection did not converge within max_proj', None
       results = [(1, M1)]
       if spec['max_iter'] > 1:
-        results.append((spec['max_iter'], fit(ml, spec, init, spec['max_iter'], max_proj).get_mahalanobis_matrix()))
+        results.append((spec['max_iter'], fit_marked(ml, spec, init, spec['max_iter'], inp, max_proj).get_mahalanobis_matrix()))
       for mi, M in results:
         if not np.isfinite(M).all():
           return 'full: checked (max_proj=%d)' % max_proj, bad('psd', 'max_iter=%d: M not finite: %r' % (mi, M.tolist()))
@@ -186,14 +195,28 @@ def check(spec):
       return 'full: checked (max_proj=%d)' % max_proj, None
 
 
+class FitRaised(Exception):
+  """an exception that came out of the code under test (as opposed to an error of this oracle)"""
+
+
 def safe_check(spec):
+  kind = 'diagonal' if spec['diagonal'] else 'full'
   try:
     return check(spec)
+  except FitRaised as f:
+    e = f.__cause__
+    name = type(e).__name__
+    if spec['diagonal']:
+      # the property only speaks about what is RETURNED (and names ValueError as the alternative to a NaN result)
+      return 'diagonal: raised %s (not judged)' % name, None
+    # full matrix: NonPSDError comes from components_from_metric refusing the learned matrix -> the PSD clause
+    tag = 'psd' if name == 'NonPSDError' else 'full-fit-raises'
+    return 'full: raised %s' % name, dict(
+        tag=tag, observed='fit raised %s: %s' % (name, str(e)[:300]), input=f.args[0],
+        klass='%s full init=%s: %s (raised %s)' % (spec['cls'], spec['init'].split('*')[0], tag, name))
   except Exception as e:
-    kind = 'diagonal' if spec['diagonal'] else 'full'
-    return '%s: raised %s' % (kind, type(e).__name__), dict(
-        tag='%s-fit-raises' % kind, observed='%s: %s' % (type(e).__name__, str(e)[:300]), input=describe(spec),
-        klass='%s %s init=%s: raised %s' % (spec['cls'], kind, spec['init'].split('*')[0], type(e).__name__))
+    return '%s: oracle error' % kind, dict(tag='oracle-error', observed='%s: %s' % (type(e).__name__, str(e)[:300]),
+                                           input=describe(spec), klass='oracle error')
 
 
 def cases(tier, seed):
